@@ -16,7 +16,11 @@
 (***************************************************************************)
 EXTENDS Naturals, Sequences, FiniteSets, TLC
 
-Leaves == {"none", "insert", "update", "delete", "fn_insert", "fn_update"}
+\* fn_withdml: a function whose only DML sits in a WITH binding of its body;
+\* fn_chain: top() -> mid() -> leaf(), where leaf() was ALTERed from a pure
+\* body to an inserting one after top() and mid() were created
+Leaves == {"none", "insert", "update", "delete", "fn_insert", "fn_update",
+           "fn_withdml", "fn_chain"}
 \* where the (possibly mutating) leaf expression is placed
 Contexts == {"top", "with_binding", "for_body", "shape_element", "subquery_in_filter_of_dml",
              "unless_conflict_else", "func_arg", "tuple_element", "set_element",
